@@ -192,10 +192,18 @@ class PatGen:
 def gen_rewrite(rng, match, root):
     """Rewrite section for a match section; mostly terminating (created ops are named differently from the root)."""
     by = {s["id"]: s for s in match}
+    pattern_root = root
+    inner = [s["id"] for s in match if s["k"] == "op" and s["id"] != root and s["types"]]
+    if inner and rng.random() < 0.15:
+        # `pdl.replace %x with ...` where %x is a matched op that is NOT the root of the rewrite (its results usually
+        # have the root as user); only values defined before %x in the match section can replace it (no cycles)
+        root = rng.choice(inner)
     rs = by[root]
     nres = len(rs["types"])
-    values = [s["id"] for s in match if s["k"] == "operand"] + \
-             [s["id"] for s in match if s["k"] == "result" and s["of"] != root]
+    order = [s["id"] for s in match]
+    before = set(order[:order.index(root)]) if root != pattern_root else set(order)
+    values = [s["id"] for s in match if s["k"] == "operand" and s["id"] in before] + \
+             [s["id"] for s in match if s["k"] == "result" and s["of"] != root and s["of"] in before and s["id"] in before]
     attrs = [s["id"] for s in match if s["k"] == "attr"]
     types = [s["id"] for s in match if s["k"] == "type"]
     out: list[dict] = []
@@ -246,6 +254,8 @@ def gen_rewrite(rng, match, root):
         return o
 
     r = rng.random()
+    if root != pattern_root:
+        r = max(r, 0.04)  # never erase an op that still has users
     if nres == 0 or r < 0.03:
         if rng.random() < 0.5 or nres:
             out.append({"k": "erase", "op": root})
@@ -278,6 +288,10 @@ def gen_rewrite(rng, match, root):
 def gen_spec(rng):
     g = PatGen(rng)
     root = g.op(0, root=True, arith=rng.random() < 0.35)
+    rs = g.by_id(root)
+    named_below = any(g.by_id(v)["k"] == "result" and g.by_id(g.by_id(v)["of"])["name"] for v in rs["operands"])
+    if named_below and not rs["name"].startswith("arith.") and rng.random() < 0.2:
+        rs["name"] = None  # root without name constraint; a NAMED defining op below it keeps the pattern selective
     return {"match": g.match, "root": root, "rewrite": gen_rewrite(rng, g.match, root), "benefit": rng.choice([1, 1, 2])}
 
 
@@ -379,7 +393,8 @@ FUNC_ARGS = [("%parg0", "i32"), ("%parg1", "i32"), ("%parg2", "i64"), ("%parg3",
 class Payload:
     """Emits generic-syntax ops; one instance of the pattern per `instance()` call."""
 
-    def __init__(self, rng, in_func):
+    def __init__(self, rng, in_func, prefix="pv"):
+        self.prefix = prefix
         self.rng = rng
         self.lines: list[str] = []
         self.n = 0
@@ -389,7 +404,7 @@ class Payload:
 
     def fresh(self):
         self.n += 1
-        return f"%pv{self.n}"
+        return f"%{self.prefix}{self.n}"
 
     def producer(self, ty, allow_arg=True):
         rng = self.rng
@@ -638,11 +653,11 @@ def _applicable(kind, site, by, ops):
     return True
 
 
-def gen_payload(rng, spec, exact_only=False):
+def gen_payload(rng, spec, exact_only=False, in_func=None, prefix="pv"):
     """Payload text + list of (mutation kind | 'exact') per instance."""
     ops = [s["id"] for s in spec["match"] if s["k"] == "op"]
     by = {s["id"]: s for s in spec["match"]}
-    p = Payload(rng, in_func=rng.random() < 0.5)
+    p = Payload(rng, in_func=(rng.random() < 0.5) if in_func is None else in_func, prefix=prefix)
     plan = []
     _uses = [by[v]["of"] for o in ops for v in by[o]["operands"] if by[v]["k"] == "result"]
     has_shared_def = any(_uses.count(d) >= 2 for d in set(_uses))
